@@ -3207,8 +3207,9 @@ fn gen_and_run(args: &Args, out: &mut Out, ctx: &mut Ctx) {
     {
         let vp = [Puller::Trailer, Puller::VerifiedAsync, Puller::TrailerAsync];
         // every RepeError variant from a rejecting verify
-        for v in 0..13u64 {
-            let p = vp[v as usize % 3];
+        for v in 0..39u64 {
+            let p = vp[v as usize / 13];
+            let v = v % 13;
             let logical: Vec<u8> = rng.bytes(30);
             let mut sc = make_script(p, v % 4 == 0, &logical, &[11], None, false);
             sc.trailer = if p.has_trailer() { 3 } else { 0 };
@@ -3218,8 +3219,10 @@ fn gen_and_run(args: &Args, out: &mut Out, ctx: &mut Ctx) {
             ctx.exec_script(out, &next("n"), &sc, 0);
         }
         // every error code a peer can answer `next` with (and some that are none)
-        for e in 1..=16u64 {
-            let p = PULLERS[e as usize % 7];
+        for e in 1..=32u64 {
+            // each code once on a blocking and once on an async puller
+            let p = if e <= 16 { [Puller::File, Puller::Trailer, Puller::Beve][e as usize % 3] } else { [Puller::FileAsync, Puller::TrailerAsync, Puller::VerifiedAsync][e as usize % 3] };
+            let e = (e - 1) % 16 + 1;
             let zstd = !p.tags_ok(false, true);
             let logical: Vec<u8> = rng.bytes(30);
             let mut sc = make_script(p, zstd, &logical, &[9], Some((1 + (e as usize % 2), Resp::Error)), false);
